@@ -377,6 +377,21 @@ func runIdxCase(o *Oracle, c *IdxCase, rep *Report, fl idxFlags) {
 			// the same (column,value) pairs under other row ids, and a few rows more: anything that leaks from the
 			// leftover file changes counts of the new index
 			old = append(append([]map[string]string{}, rows[1:]...), rows[0], rows[0], rows[len(rows)/2])
+			// ... and pairs the new data does NOT contain but queries ask for (values "absent", "99999", "", a value of
+			// another column): whatever survives from the leftover file turns an expected zero into a count
+			extra := map[string]string{}
+			for k, v := range rows[0] {
+				extra[k] = v
+			}
+			for _, v := range []string{"absent", "99999", "", "\xff"} {
+				m := map[string]string{}
+				for k := range extra {
+					m[k] = v
+				}
+				if len(m) > 0 {
+					old = append(old, m, m)
+				}
+			}
 		}
 		os.Remove(path + ".tmp")
 		buildIndexFile("mem", old, path+".tmp")
